@@ -905,6 +905,11 @@ Inductive J (XS : list var) : code -> senv -> senv -> bytes -> sig -> Prop :=
     J XS (Loop true cond incr body) sg1 sg2 o2 SN ->
     J XS (Prog r) sg2 sg' out g ->
     J XS (Prog (SFor init cond incr body :: r)) sg sg' (o1 ++ o2 ++ out) g
+| j_for_return sg init cond incr body sg1 o1 sg2 o2 rv r :
+    frag2 (SFor init cond incr body) = true -> side XS cond -> frag2_all r = true ->
+    J XS (Prog (opt_list init)) sg sg1 o1 SN ->
+    J XS (Loop true cond incr body) sg1 sg2 o2 (SR rv) ->
+    J XS (Prog (SFor init cond incr body :: r)) sg sg2 (o1 ++ o2) (SR rv)
 | l_exit first cond incr body sg sg1 o1 :
     J XS (Prog (incr_of first incr)) sg sg1 o1 SN -> peval sg1 cond = Some (VBool false) ->
     J XS (Loop first cond incr body) sg sg1 o1 SN
@@ -912,11 +917,15 @@ Inductive J (XS : list var) : code -> senv -> senv -> bytes -> sig -> Prop :=
     J XS (Prog (incr_of first incr)) sg sg1 o1 SN -> peval sg1 cond = Some (VBool true) ->
     J XS (Prog body) sg1 sg2 o2 SB ->
     J XS (Loop first cond incr body) sg sg2 (o1 ++ o2) SN
-| l_next first cond incr body sg sg1 o1 sg2 o2 gb sg3 o3 :
+| l_next first cond incr body sg sg1 o1 sg2 o2 gb sg3 o3 g3 :
     J XS (Prog (incr_of first incr)) sg sg1 o1 SN -> peval sg1 cond = Some (VBool true) ->
     J XS (Prog body) sg1 sg2 o2 gb -> (gb = SN \/ gb = SC) ->
-    J XS (Loop false cond incr body) sg2 sg3 o3 SN ->
-    J XS (Loop first cond incr body) sg sg3 (o1 ++ o2 ++ o3) SN.
+    J XS (Loop false cond incr body) sg2 sg3 o3 g3 ->
+    J XS (Loop first cond incr body) sg sg3 (o1 ++ o2 ++ o3) g3
+| l_return first cond incr body sg sg1 o1 sg2 o2 rv :
+    J XS (Prog (incr_of first incr)) sg sg1 o1 SN -> peval sg1 cond = Some (VBool true) ->
+    J XS (Prog body) sg1 sg2 o2 (SR rv) ->
+    J XS (Loop first cond incr body) sg sg2 (o1 ++ o2) (SR rv).
 
 Lemma J_env XS c sg sg' out g : J XS c sg sg' out g -> env_ok sg -> env_ok sg'.
 Proof. induction 1; intro He; auto. Qed.
@@ -1730,18 +1739,22 @@ Record loopT (cond : expr) (incr : option stmt) (body : list stmt) (si sn sc sd 
   lt_fb : frag2_all body = true
 }.
 
-Definition simL (XS : list var) (first : bool) (cond : expr) (incr : option stmt) (body : list stmt) (sg sg' : senv) (out : bytes) : Prop :=
+(* a loop ends normally - the machine goes on behind its done - or with a return inside its body *)
+Definition afterL (g : sig) (b' : shenv) (L' : list (list line)) (rest : list line) (res : shenv * bytes) : Prop :=
+  match g with SN => lruns b' L' rest res | SR _ => res = (b', []) | _ => False end.
+
+Definition simL (XS : list var) (first : bool) (cond : expr) (incr : option stmt) (body : list stmt) (sg sg' : senv) (out : bytes) (g : sig) : Prop :=
   forall si sn sc sd vc b, loopT cond incr body si sn sc sd vc -> side XS cond -> env_ok sg ->
   ctx_ok XS sg b (cv_for_start bstate atom bash_conv si) -> fresh_flags XS si ->
   (incr <> None -> flag_set b (fname (b_for_counter si)) = negb first) ->
-  exists R b', cext (cv_for_start bstate atom bash_conv si) sd R /\ cl3 R /\ ctx_ok XS sg' b' sd /\ untouched XS si sd b b' /\
-    forall L' rest res, lruns b' L' rest res ->
+  exists R b', cext (cv_for_start bstate atom bash_conv si) sd R /\ cl3 R /\ ctx_ok XS sg' b' sd /\ untouched XS si sd b b' /\ regs g b' /\
+    forall L' rest res, afterL g b' L' rest res ->
                         lruns b ((R ++ [LDone] ++ rest) :: L') (R ++ [LDone] ++ rest) (prepend out res).
 
 Definition simJ (XS : list var) (c : code) (sg sg' : senv) (out : bytes) (g : sig) : Prop :=
   match c with
   | Prog body => simP XS sg body sg' out g
-  | Loop first cond incr body => g = SN /\ simL XS first cond incr body sg sg' out
+  | Loop first cond incr body => simL XS first cond incr body sg sg' out g
   end.
 
 (* one round up to the exit test: increment part, condition lines, the test *)
@@ -1801,7 +1814,7 @@ Proof. intros [_ _ Eb _ _ Hfb]. destruct (tb_e3 body (all_e3 body) Hfb _ _ _ Eb)
 
 Lemma simL_exit XS first cond incr body sg sg1 o1 :
   simP XS sg (incr_of first incr) sg1 o1 SN -> env_ok sg1 -> peval sg1 cond = Some (VBool false) ->
-  simL XS first cond incr body sg sg1 o1.
+  simL XS first cond incr body sg sg1 o1 SN.
 Proof.
   intros Hsim Henv1 Hv si sn sc sd vc b LT Hside Henv Hc Hfl Hflag.
   destruct (round_head XS first cond incr body sg sg1 o1 si sn sc sd vc b false LT Hside Henv Henv1 Hsim Hv Hc Hfl Hflag)
@@ -1811,6 +1824,7 @@ Proof.
   split; [rewrite app_assoc; eapply cext_trans; [exact EH|exact EB]|].
   split; [apply cl3_app; [exact CH|]; apply cl3_app; [apply cl3_plain; reflexivity|exact CB]|].
   split; [exact (ctx_cext _ _ _ _ _ _ EB Cc)|]. split; [exact (untouched_gen XS si si sc sd [] b b2 (cext_refl si) (cx_mono _ _ _ EB) U)|].
+  split; [exact I|].
   intros L' rest res [f Hr]. rewrite prepend_nil || idtac.
   set (top := (H ++ [LBreakUnless (first_value bash_conv vc)] ++ B) ++ [LDone] ++ rest).
   assert (top = H ++ [LBreakUnless (first_value bash_conv vc)] ++ (B ++ [LDone] ++ rest)) as Et by (unfold top; rewrite <- !app_assoc; reflexivity).
@@ -1821,7 +1835,7 @@ Qed.
 Lemma simL_break XS first cond incr body sg sg1 o1 sg2 o2 :
   simP XS sg (incr_of first incr) sg1 o1 SN -> env_ok sg1 -> peval sg1 cond = Some (VBool true) ->
   simP XS sg1 body sg2 o2 SB ->
-  simL XS first cond incr body sg sg2 (o1 ++ o2).
+  simL XS first cond incr body sg sg2 (o1 ++ o2) SN.
 Proof.
   intros Hsim Henv1 Hv Hbody si sn sc sd vc b LT Hside Henv Hc Hfl Hflag.
   destruct (round_head XS first cond incr body sg sg1 o1 si sn sc sd vc b true LT Hside Henv Henv1 Hsim Hv Hc Hfl Hflag)
@@ -1835,7 +1849,8 @@ Proof.
   split; [apply cl3_app; [exact CH|]; apply cl3_app; [apply cl3_plain; reflexivity|exact CB]|].
   split; [exact Cc3|].
   split; [apply (untouched_compose XS si sd b b2); [exact (untouched_gen XS si si sc sd [] b b2 (cext_refl si) (cx_mono _ _ _ EB) U)|exact (untouched_gen XS si sB sd sd _ b2 b3 EsB (le_n _) U3)]|].
-  intros L' rest res Hr.
+  split; [exact I|].
+  intros L' rest res Hr. cbn [afterL] in Hr.
   set (top := (H ++ [LBreakUnless a] ++ B) ++ [LDone] ++ rest).
   assert (top = H ++ [LBreakUnless a] ++ (B ++ [LDone] ++ rest)) as Et by (unfold top; rewrite <- !app_assoc; reflexivity).
   rewrite Et at 2. rewrite <- prepend_app. apply Hk.
@@ -1843,11 +1858,36 @@ Proof.
   destruct (Hk3 (top :: L') ([LDone] ++ rest) res Ha) as [f Hf]. exists (S f). cbn [app lrun]. rewrite Ct. exact Hf.
 Qed.
 
-Lemma simL_next XS first cond incr body sg sg1 o1 sg2 o2 gb sg3 o3 :
+Lemma simL_return XS first cond incr body sg sg1 o1 sg2 o2 rv :
+  simP XS sg (incr_of first incr) sg1 o1 SN -> env_ok sg1 -> peval sg1 cond = Some (VBool true) ->
+  simP XS sg1 body sg2 o2 (SR rv) ->
+  simL XS first cond incr body sg sg2 (o1 ++ o2) (SR rv).
+Proof.
+  intros Hsim Henv1 Hv Hbody si sn sc sd vc b LT Hside Henv Hc Hfl Hflag.
+  destruct (round_head XS first cond incr body sg sg1 o1 si sn sc sd vc b true LT Hside Henv Henv1 Hsim Hv Hc Hfl Hflag)
+    as (H & b2 & a & EH & CH & -> & Cc & U & Ct & Mc & _ & Hk).
+  set (a := first_value bash_conv vc) in *. set (sB := add_line (LBreakUnless a) sc) in *.
+  assert (cext si sB ([LForInit (flag_of si); LWhile] ++ H ++ [LBreakUnless a])) as EsB by (eapply cext_trans; [apply for_start_cext|exact EH]).
+  destruct (lrun_body XS sg1 body sg2 o2 (SR rv) sB tt sd b2 (lt_body _ _ _ _ _ _ _ _ LT) (lt_fb _ _ _ _ _ _ _ _ LT) Hbody Henv1 Cc (fresh_cext _ _ _ _ EsB Hfl))
+    as (B & b3 & EB & CB & Cc3 & U3 & Rg3 & Hk3).
+  exists (H ++ [LBreakUnless a] ++ B), b3.
+  split; [rewrite app_assoc; eapply cext_trans; [exact EH|exact EB]|].
+  split; [apply cl3_app; [exact CH|]; apply cl3_app; [apply cl3_plain; reflexivity|exact CB]|].
+  split; [exact Cc3|].
+  split; [apply (untouched_compose XS si sd b b2); [exact (untouched_gen XS si si sc sd [] b b2 (cext_refl si) (cx_mono _ _ _ EB) U)|exact (untouched_gen XS si sB sd sd _ b2 b3 EsB (le_n _) U3)]|].
+  split; [exact Rg3|].
+  intros L' rest res Hr. cbn [afterL] in Hr. subst res.
+  set (top := (H ++ [LBreakUnless a] ++ B) ++ [LDone] ++ rest).
+  assert (top = H ++ [LBreakUnless a] ++ (B ++ [LDone] ++ rest)) as Et by (unfold top; rewrite <- !app_assoc; reflexivity).
+  rewrite Et at 2. rewrite <- prepend_app. apply Hk.
+  destruct (Hk3 (top :: L') ([LDone] ++ rest) (b3, []) eq_refl) as [f Hf]. exists (S f). cbn [app lrun]. rewrite Ct. exact Hf.
+Qed.
+
+Lemma simL_next XS first cond incr body sg sg1 o1 sg2 o2 gb sg3 o3 g3 :
   simP XS sg (incr_of first incr) sg1 o1 SN -> env_ok sg1 -> env_ok sg2 -> peval sg1 cond = Some (VBool true) ->
   simP XS sg1 body sg2 o2 gb -> (gb = SN \/ gb = SC) ->
-  simL XS false cond incr body sg2 sg3 o3 ->
-  simL XS first cond incr body sg sg3 (o1 ++ o2 ++ o3).
+  simL XS false cond incr body sg2 sg3 o3 g3 ->
+  simL XS first cond incr body sg sg3 (o1 ++ o2 ++ o3) g3.
 Proof.
   intros Hsim Henv1 Henv2 Hv Hbody Hgb Hnext si sn sc sd vc b LT Hside Henv Hc Hfl Hflag.
   destruct (round_head XS first cond incr body sg sg1 o1 si sn sc sd vc b true LT Hside Henv Henv1 Hsim Hv Hc Hfl Hflag)
@@ -1870,13 +1910,14 @@ Proof.
     - intros c x _ Heq. unfold fname, mangled in Heq. cbn in Heq. inversion Heq.
     - intros i Heq. unfold fname, rv_name in Heq. cbn in Heq. inversion Heq.
     - intros i Heq. exact (fname_not_ma _ _ _ Heq). }
-  destruct (Hnext si sn sc sd vc b3 LT Hside Henv2 Hc3 Hfl Hflag3) as (R' & b' & ER' & CR' & Cc' & U' & Hk').
+  destruct (Hnext si sn sc sd vc b3 LT Hside Henv2 Hc3 Hfl Hflag3) as (R' & b' & ER' & CR' & Cc' & U' & Rg' & Hk').
   assert (R' = H ++ [LBreakUnless a] ++ B) as -> by exact (code_same_cext _ _ _ _ (cx_code _ _ _ ER') ER).
   exists (H ++ [LBreakUnless a] ++ B), b'.
   split; [exact ER|]. split; [exact CR'|]. split; [exact Cc'|].
   split.
   { apply (untouched_compose XS si sd b b2); [exact (untouched_gen XS si si sc sd [] b b2 (cext_refl si) (cx_mono _ _ _ EB) U)|].
     apply (untouched_compose XS si sd b2 b3); [|exact U']. exact (untouched_gen XS si sB sd sd _ b2 b3 EsB (le_n _) U3). }
+  split; [exact Rg'|].
   intros L' rest res Hr.
   set (top := (H ++ [LBreakUnless a] ++ B) ++ [LDone] ++ rest).
   assert (top = H ++ [LBreakUnless a] ++ (B ++ [LDone] ++ rest)) as Et by (unfold top; rewrite <- !app_assoc; reflexivity).
@@ -1923,7 +1964,7 @@ Qed.
 Lemma simP_for XS sg init cond incr body sg1 o1 sg2 o2 r sg' out g :
   frag2 (SFor init cond incr body) = true -> side XS cond ->
   simP XS sg (opt_list init) sg1 o1 SN -> env_ok sg1 -> env_ok sg2 ->
-  simL XS true cond incr body sg1 sg2 o2 ->
+  simL XS true cond incr body sg1 sg2 o2 SN ->
   simP XS sg2 r sg' out g ->
   simP XS sg (SFor init cond incr body :: r) sg' (o1 ++ o2 ++ out) g.
 Proof.
@@ -1939,7 +1980,7 @@ Proof.
   set (k0 := b_for_counter si). set (f := fname k0).
   set (sf := cv_for_start bstate atom bash_conv si) in *.
   assert (ctx_ok XS sg1 (sh_set f [] b0) sf) as Cf0 by (apply ctx_set_flag; [exact (fresh_cext _ _ _ _ (for_start_cext si) Hfli)|exact (ctx_cext _ _ _ _ _ _ (for_start_cext si) C0)]).
-  destruct (IH2 si sn sc sd vc (sh_set f [] b0) LT Hside Henv1 Cf0 Hfli (fun _ => flag_set_set f [] b0)) as (R & b2 & ER & CR & C2 & U2 & HkL).
+  destruct (IH2 si sn sc sd vc (sh_set f [] b0) LT Hside Henv1 Cf0 Hfli (fun _ => flag_set_set f [] b0)) as (R & b2 & ER & CR & C2 & U2 & _ & HkL).
   (* done: the loop's end *)
   rewrite bash_for_end in Ee. destruct (b_fors sd) eqn:Efs; [discriminate|]. inversion Ee; subst s1; clear Ee.
   set (sE := {| b_start := b_start (add_line LDone sd); b_code := b_code (add_line LDone sd); b_var_counter := b_var_counter (add_line LDone sd);
@@ -1975,6 +2016,54 @@ Proof.
   exact H0'.
 Qed.
 
+Lemma simP_for_return XS sg init cond incr body sg1 o1 sg2 o2 rv r :
+  frag2 (SFor init cond incr body) = true -> side XS cond ->
+  simP XS sg (opt_list init) sg1 o1 SN -> env_ok sg1 ->
+  simL XS true cond incr body sg1 sg2 o2 (SR rv) ->
+  simP XS sg (SFor init cond incr body :: r) sg2 (o1 ++ o2) (SR rv).
+Proof.
+  intros Hfrag Hside IH1 Henv1 IH2 s u s' b Ht Hf Henv Hc Hfl.
+  cbn [go_fix] in Ht. mb Ht as u1 s1 H1 H2. cbn [frag2_all] in Hf. apply andb_true_iff in Hf as [_ Hfr].
+  rewrite frag2_for in Hfrag. apply andb_true_iff in Hfrag as [Hf0 Hfb]. apply andb_true_iff in Hf0 as [Hf0 Hfn]. apply andb_true_iff in Hf0 as [Hfi Hpc].
+  destruct (for_decompose init cond incr body s u1 s1 H1) as (si & sn & vc & sc & sd & Ei & En & Ec & Eb & Ee).
+  pose proof (mkLoopT cond incr body si sn sc sd vc En Ec Eb Hfn Hpc Hfb) as LT.
+  destruct (IH1 s tt si b (go_opt init s si Ei) (frag2_opt init Hfi) Henv Hc Hfl) as (X0 & b0 & E0 & C0 & U0 & Rg0 & Hk0).
+  assert (fresh_flags XS si) as Hfli by exact (fresh_cext _ _ _ _ E0 Hfl).
+  set (k0 := b_for_counter si). set (f := fname k0).
+  set (sf := cv_for_start bstate atom bash_conv si) in *.
+  assert (ctx_ok XS sg1 (sh_set f [] b0) sf) as Cf0 by (apply ctx_set_flag; [exact (fresh_cext _ _ _ _ (for_start_cext si) Hfli)|exact (ctx_cext _ _ _ _ _ _ (for_start_cext si) C0)]).
+  destruct (IH2 si sn sc sd vc (sh_set f [] b0) LT Hside Henv1 Cf0 Hfli (fun _ => flag_set_set f [] b0)) as (R & b2 & ER & CR & C2 & U2 & Rg2 & HkL).
+  rewrite bash_for_end in Ee. destruct (b_fors sd) eqn:Efs; [discriminate|]. inversion Ee; subst s1; clear Ee.
+  set (sE := {| b_start := b_start (add_line LDone sd); b_code := b_code (add_line LDone sd); b_var_counter := b_var_counter (add_line LDone sd);
+               b_for_counter := b_for_counter (add_line LDone sd); b_fors := removelast (b_fors (add_line LDone sd)); b_funcs := b_funcs (add_line LDone sd);
+               b_func_counter := b_func_counter (add_line LDone sd); b_sah := b_sah (add_line LDone sd); b_sch := b_sch (add_line LDone sd);
+               b_ssh := b_ssh (add_line LDone sd) |}) in *.
+  assert (cext sd sE [LDone]) as EE by (constructor; try reflexivity; apply le_n).
+  assert (cext s sE (X0 ++ [LForInit (flag_of si); LWhile] ++ R ++ [LDone])) as EsE
+    by (eapply cext_trans; [exact E0|]; eapply cext_trans; [apply for_start_cext|]; eapply cext_trans; [exact ER|exact EE]).
+  destruct (go_e3 r (all_e3 r) Hfr _ _ _ H2) as (X3 & E3 & _ & _).
+  exists ((X0 ++ [LForInit (flag_of si); LWhile] ++ R ++ [LDone]) ++ X3), b2.
+  split; [eapply cext_trans; eassumption|]. split; [exact (ctx_cext _ _ _ _ _ _ (cext_trans _ _ _ _ _ EE E3) C2)|].
+  split.
+  { pose proof (cx_mono _ _ _ ER) as MR. unfold sf in MR. rewrite for_start_counter in MR.
+    assert (b_for_counter sE = b_for_counter sd) as MsE by reflexivity.
+    refine (untouched_gen XS s s sE s' [] b b2 (cext_refl s) (cx_mono _ _ _ E3) _).
+    apply (untouched_compose XS s sE b b0); [refine (untouched_gen XS s s si sE [] b b0 (cext_refl s) _ U0); lia|].
+    refine (untouched_gen XS s si sE sE _ b0 b2 E0 (le_n _) _).
+    apply (untouched_compose XS si sE b0 (sh_set f [] b0)); [apply untouched_set_flag; unfold k0; lia|].
+    refine (untouched_gen XS si si sd sE [] _ b2 (cext_refl si) _ U2). lia. }
+  split; [exact Rg2|].
+  intros L rest res H. cbn [after] in H. subst res.
+  pose proof (HkL L (X3 ++ rest) (b2, []) eq_refl) as HL.
+  set (top := R ++ [LDone] ++ X3 ++ rest) in *.
+  assert (lruns b0 L ([LForInit (flag_of si); LWhile] ++ top) (prepend o2 (b2, []))) as HW.
+  { destruct HL as [fu Hfu]. exists (S (S fu)). cbn [app lrun]. exact Hfu. }
+  pose proof (Hk0 L ([LForInit (flag_of si); LWhile] ++ top) _ HW) as H0'.
+  replace (((X0 ++ [LForInit (flag_of si); LWhile] ++ R ++ [LDone]) ++ X3) ++ rest) with (X0 ++ [LForInit (flag_of si); LWhile] ++ top)
+    by (unfold top; rewrite <- !app_assoc; reflexivity).
+  rewrite <- prepend_app. exact H0'.
+Qed.
+
 Theorem J_sim : forall XS c sg sg' out g, J XS c sg sg' out g -> env_ok sg -> simJ XS c sg sg' out g.
 Proof.
   intros XS c sg sg' out g H.
@@ -1991,9 +2080,11 @@ Proof.
                  |sg c0 b0 elifs els bools sgm outm r sg' out g Hfrag Hside Hv Hch IHch Hr IHr
                  |sg c0 b0 elifs els bools sgm outm r g Hfrag Hside Hv Hch IHch Hg Hfr
                  |sg init cond incr body sg1 o1 sg2 o2 r sg' out g Hfrag Hside Hi IHi Hl IHl Hr IHr
+                 |sg init cond incr body sg1 o1 sg2 o2 rv r Hfrag Hside Hfr Hi IHi Hl IHl
                  |first cond incr body sg sg1 o1 Hi IHi Hv
                  |first cond incr body sg sg1 o1 sg2 o2 Hi IHi Hv Hb IHb
-                 |first cond incr body sg sg1 o1 sg2 o2 gb sg3 o3 Hi IHi Hv Hb IHb Hgb Hn IHn];
+                 |first cond incr body sg sg1 o1 sg2 o2 gb sg3 o3 g3 Hi IHi Hv Hb IHb Hgb Hn IHn
+                 |first cond incr body sg sg1 o1 sg2 o2 rv Hi IHi Hv Hb IHb];
     intro Henv; cbn [simJ] in *.
   - apply simP_nil.
   - exact (simP_assign XS sg x e v r sg' out g Hp Hs Hx Hv Henv' (IH Henv')).
@@ -2014,11 +2105,14 @@ Proof.
   - pose proof (J_env _ _ _ _ _ _ Hch Henv) as Henvm. exact (simP_if_next XS sg c0 b0 elifs els bools sgm outm r sg' out g Hfrag Hside Hv (IHch Henv) Henvm (IHr Henvm)).
   - exact (simP_if_stop XS sg c0 b0 elifs els bools sgm outm r g Hfrag Hside Hv (IHch Henv) Hg).
   - pose proof (J_env _ _ _ _ _ _ Hi Henv) as Henv1. pose proof (J_env _ _ _ _ _ _ Hl Henv1) as Henv2.
-    destruct (IHl Henv1) as [_ IHL]. exact (simP_for XS sg init cond incr body sg1 o1 sg2 o2 r sg' out g Hfrag Hside (IHi Henv) Henv1 Henv2 IHL (IHr Henv2)).
-  - split; [reflexivity|]. pose proof (J_env _ _ _ _ _ _ Hi Henv) as Henv1. exact (simL_exit XS first cond incr body sg sg1 o1 (IHi Henv) Henv1 Hv).
-  - split; [reflexivity|]. pose proof (J_env _ _ _ _ _ _ Hi Henv) as Henv1. exact (simL_break XS first cond incr body sg sg1 o1 sg2 o2 (IHi Henv) Henv1 Hv (IHb Henv1)).
-  - split; [reflexivity|]. pose proof (J_env _ _ _ _ _ _ Hi Henv) as Henv1. pose proof (J_env _ _ _ _ _ _ Hb Henv1) as Henv2.
-    destruct (IHn Henv2) as [_ IHN]. exact (simL_next XS first cond incr body sg sg1 o1 sg2 o2 gb sg3 o3 (IHi Henv) Henv1 Henv2 Hv (IHb Henv1) Hgb IHN).
+    exact (simP_for XS sg init cond incr body sg1 o1 sg2 o2 r sg' out g Hfrag Hside (IHi Henv) Henv1 Henv2 (IHl Henv1) (IHr Henv2)).
+  - pose proof (J_env _ _ _ _ _ _ Hi Henv) as Henv1.
+    exact (simP_for_return XS sg init cond incr body sg1 o1 sg2 o2 rv r Hfrag Hside (IHi Henv) Henv1 (IHl Henv1)).
+  - pose proof (J_env _ _ _ _ _ _ Hi Henv) as Henv1. exact (simL_exit XS first cond incr body sg sg1 o1 (IHi Henv) Henv1 Hv).
+  - pose proof (J_env _ _ _ _ _ _ Hi Henv) as Henv1. exact (simL_break XS first cond incr body sg sg1 o1 sg2 o2 (IHi Henv) Henv1 Hv (IHb Henv1)).
+  - pose proof (J_env _ _ _ _ _ _ Hi Henv) as Henv1. pose proof (J_env _ _ _ _ _ _ Hb Henv1) as Henv2.
+    exact (simL_next XS first cond incr body sg sg1 o1 sg2 o2 gb sg3 o3 g3 (IHi Henv) Henv1 Henv2 Hv (IHb Henv1) Hgb (IHn Henv2)).
+  - pose proof (J_env _ _ _ _ _ _ Hi Henv) as Henv1. exact (simL_return XS first cond incr body sg sg1 o1 sg2 o2 rv (IHi Henv) Henv1 Hv (IHb Henv1)).
 Qed.
 
 (* Terminating programs with loops: the emitted lines, run by the flat shell model with loops, print what the source
